@@ -2,7 +2,7 @@ from typing import Union
 
 from pydbml.classes import Column, Enum, Expression
 from pydbml.renderer.dbml.default.renderer import DefaultDBMLRenderer
-from pydbml.renderer.dbml.default.utils import comment_to_dbml, note_option_to_dbml, quote_string, string_to_dbml
+from pydbml.renderer.dbml.default.utils import comment_to_dbml, name_to_dbml, note_option_to_dbml, quote_string, string_to_dbml
 from pydbml.renderer.sql.default.utils import get_full_name_for_sql
 
 
@@ -35,7 +35,7 @@ def render_options(model: Column) -> str:
     if model.properties:
         if model.table and model.table.database and model.table.database.allow_properties:
             for key, value in model.properties.items():
-                options.append(f'{key}: {quote_string(value)}')
+                options.append(f'{name_to_dbml(key)}: {quote_string(value)}')
 
     if options:
         return f' [{", ".join(options)}]'
